@@ -456,9 +456,9 @@ struct Mon {
     check_sorted_run(civs, "probe-set-shuffled", &nontrivial, 2);
     // dense sweeps around real changes
     size_t nch = near_changes.size();
-    size_t want = thorough ? nch : std::min<size_t>(nch, 8);
+    size_t want = std::min<size_t>(nch, thorough ? 48 : 8);
     for (size_t k = 0; k < want; ++k) {
-      const orc::Change& c = thorough ? near_changes[k] : near_changes[rng.next() % nch];
+      const orc::Change& c = near_changes[rng.next() % nch];
       i128 lo = c.T + std::min(c.before.off, c.after.off), hi = c.T + std::max(c.before.off, c.after.off);
       std::vector<i128> Ls;
       for (i128 L = lo - 1800; L <= hi + 1800; ++L)
